@@ -14,8 +14,11 @@ every step, computes from the graph before and after:
 
 and requires: not touched → 0 calls (nothing fires because of a detached or unrelated object);
 touched and some spec changed → exactly 1 call; touched, every spec resolves on both sides and none
-changed → 0 calls; otherwise (attach from / detach to `None`) at most 1 call.  After every step no
-object outside the current resolution chains of `m` holds a watcher calling `t.m`.
+changed → 0 calls; otherwise (attach from / detach to `None`) at most 1 call.  After every step —
+ALSO a step during which a dependent method raised — no object outside the current resolution chains
+of `m` holds a watcher calling `t.m`, and every (object, parameter) the current walk of a spec reads
+(once its first sub-object is there) holds one.  When a method body raised, the exception left the
+dispatch loop: the lower bounds on the number of calls are waived for that step.
 -/
 import ParamVerif.Depends.Paths
 
@@ -33,6 +36,7 @@ structure PStepObs where
   err : Option String
   calls : List (Oid × Name)
   watchers : List WObs
+  raised : Bool := false       -- a dependent method's body raised during the step (caught by the harness)
   deriving Repr
 
 def graphWorld (classes : List PClass) (g : List PObj) : PWorld :=
@@ -68,6 +72,16 @@ def readPairs (w : PWorld) (t : Oid) (s : PathSpec) : List (Oid × Name) :=
 /-- the objects on the current resolution chain (the only ones that may hold a watcher for the spec) -/
 def chainObjs (w : PWorld) (t : Oid) (s : PathSpec) : List Oid :=
   t :: (walk w t s.path).1.filterMap (fun r => match r.2.2 with | .ref o => some o | _ => none)
+
+/-- the (object, parameter) pairs that must hold a watcher for the spec: everything the walk reads,
+once the first sub-object is there -/
+def mustWatch (w : PWorld) (t : Oid) (s : PathSpec) : List (Oid × Name) :=
+  match s.path with
+  | [] => []
+  | n :: _ =>
+    match getParam w t n with
+    | some (.ref _) => readPairs w t s
+    | _ => []
 
 def readChanged (o : Oid) (p : Name) (old new : Val) : List (Oid × Name × Val) → List (Oid × Name × Val) → Bool
   | [], [] => false
@@ -106,7 +120,7 @@ def judgeMethod (i : Nat) (wb wa : PWorld) (st : Step) (obs : PStepObs) (t : Oid
           | some a, some b => readChanged o p old v a b
           | _, _ => false)
         if changed then
-          if got = 1 then none else some s!"fires step={i} owner={t} method={m.name} expected=1 got={got}"
+          if got = 1 || (obs.raised && got = 0) then none else some s!"fires step={i} owner={t} method={m.name} expected=1 got={got}"
         else if both.length = m.specs.length then
           if got = 0 then none else some s!"fires step={i} owner={t} method={m.name} expected=0 got={got}"
         else if got ≤ 1 then none else some s!"fires step={i} owner={t} method={m.name} expected<=1 got={got}"
@@ -116,7 +130,11 @@ def judgeMethod (i : Nat) (wb wa : PWorld) (st : Step) (obs : PStepObs) (t : Oid
     let allowed := m.specs.flatMap (chainObjs wa t)
     match obs.watchers.find? (fun x => x.owner = t && x.method = m.name && !(allowed.contains x.on)) with
     | some x => some s!"leftover step={i} owner={t} method={m.name} on={x.on} param={x.param}"
-    | none => none
+    | none =>
+      match (m.specs.flatMap (mustWatch wa t)).find? (fun r =>
+          !(obs.watchers.any (fun x => x.owner = t && x.method = m.name && x.on = r.1 && x.param = r.2))) with
+      | some r => some s!"missing step={i} owner={t} method={m.name} on={r.1} param={r.2}"
+      | none => none
 
 def specHistoryP (classes : List PClass) : Nat → List PObj → List (Step × PStepObs) → Nat × Option String
   | i, _, [] => (i, none)
@@ -146,13 +164,13 @@ def errNameP : PErr → String
 
 def obsOfWorld (w : PWorld) : PStepObs :=
   { err := none, calls := w.log.map (fun c => (c.owner, c.method)),
-    watchers := (watcherRows w).map (fun (o, q, x) => ⟨o, q, x.owner, x.method⟩) }
+    watchers := (watcherRows w).map (fun (o, q, x) => ⟨o, q, x.owner, x.method⟩), raised := w.raised }
 
 /-- run a history; every step starts with an empty log; an exception ends the history -/
 def runHistory : PWorld → List Step → List (Except PErr PWorld)
   | _, [] => []
   | w, st :: rest =>
-    match runStep { w with log := [] } st with
+    match runStep { w with log := [], raised := false } st with
     | .error e => [.error e]
     | .ok w' => .ok w' :: runHistory w' rest
 
